@@ -13,6 +13,15 @@ open KV KV.RW KV.Spec.RB
   simp only [libCodecOf, codecOf, Gen.RecordConsts.compressionMask]; rfl
 @[simp] theorem libIsControl_eq (a : Int) : libIsControl a = isControl a := by
   simp only [libIsControl, isControl, Gen.RecordConsts.controlConst]; rfl
+/-- the masks the Client-path decoders test are the timestamp-type bit of the Spec (breaks when the test disappears) -/
+@[simp] theorem libLogAppendV2_eq (a : Int) : libLogAppendV2 a = logAppend a := by
+  simp [libLogAppendV2, maskTest, Gen.RecordConsts.stampMasksV2, logAppend]
+@[simp] theorem libLogAppendV1_eq (a : Int) : libLogAppendV1 a = logAppend a := by
+  simp [libLogAppendV1, maskTest, Gen.RecordConsts.stampMasksV1, logAppend]
+
+theorem map_stamp_recOfV2c (f : FrameV2) (xs : List RecV2) :
+    (xs.map (recOfV2c f)).map (stamp (logAppend f.attributes) f.maxTs) = xs.map (recOfV2 f) := by
+  simp [List.map_map, recOfV2, Function.comp_def]
 
 theorem libVarBytes_varbytes (b : Option Bytes) (r : Bytes) : libVarBytes (varbytes b ++ r) = some (b, r) := by
   cases b with
@@ -45,12 +54,12 @@ theorem libRecord_encRec (base first : Int) (x : RecV2) (r : Bytes) :
     simp [this]
 
 theorem libRecords_encRecs (f : FrameV2) (xs : List RecV2) :
-    libRecords f.baseOffset f.firstTs xs.length (encRecs xs) = xs.map (recOfV2 f) := by
+    libRecords f.baseOffset f.firstTs xs.length (encRecs xs) = xs.map (recOfV2c f) := by
   induction xs with
   | nil => simp [libRecords]
   | cons x xs ih =>
     simp only [List.length_cons, libRecords, encRecs, libRecord_encRec, List.map_cons, ih]
-    simp [recOfV2]
+    simp [recOfV2c]
 
 /-- a batch as a broker stores it: well-formed header, the payload (after decompression) is the encoding of `xs` -/
 structure GoodBatch (dec : Int → Bytes → Option Bytes) (f : FrameV2) (xs : List RecV2) : Prop where
@@ -93,7 +102,9 @@ theorem libReadV2_bytes (crc : Bytes → Nat) (dec : Int → Bytes → Option By
     libIsControl_eq, h.payload]
   have hcnt : ¬ f.count < 0 := by rw [h.count]; omega
   by_cases hcrc : crc (frameBody f) = c'
-  · simp [hcrc, hcnt, h.count, libRecords_encRecs]
+  · have hx : ¬ ((xs.length : Int) < 0) := by omega
+    simp only [hcrc, ne_eq, not_true_eq_false, if_false, h.count, hx, Int.toNat_natCast, libRecords_encRecs,
+      libLogAppendV2_eq, map_stamp_recOfV2c, if_true]
   · simp [hcrc]
 
 theorem libReadV2_encFrame (crc : Bytes → Nat) (hcrc : ∀ b, crc b < M32) (dec : Int → Bytes → Option Bytes)
@@ -165,7 +176,7 @@ structure GoodWrapper (c : Crcs) (dec : Int → Bytes → Option Bytes) (m : Msg
 
 /-- the records of a wrapper: inner relative offsets made absolute -/
 def wrapperRecs (m : Msg) (inner : List Msg) : List Rec :=
-  inner.map fun x => { recOfMsg x with offset := (m.offset - lastOffset inner) + x.offset }
+  inner.map fun x => stamp (logAppend m.attributes) m.ts { recOfMsg x with offset := (m.offset - lastOffset inner) + x.offset }
 
 theorem filterMap_msgs (f : Entry → Option Msg) (hf : ∀ x, f (.msg x) = some x) (ms : List Msg) :
     (ms.map Entry.msg).filterMap f = ms := by
@@ -200,6 +211,8 @@ theorem libReadV1_wrapper (c : Crcs) (h1 : ∀ b, c.ieee b < M32) (dec : Int →
   have hin := libInner_encSet c h1 inner (fun x hx => (h.innerWF x hx).1) (encSet c (inner.map Entry.msg)).length
     (by have := encSet_length_ge c (inner.map Entry.msg); simpa using this)
   simp only [libReadV1, libReadMsg_encMsg c.ieee h1 m h.wf r, libCodecOf_eq, h.codec, if_false, hv, hd, hin]
+  have hon : (decide (m.magic = 1) && logAppend m.attributes) = logAppend m.attributes := by simp [h.magic]
+  simp only [libLogAppendV1_eq, hon]
   by_cases h0 : m.offset = 0
   · have hl := h.base h0
     simp only [h0, ne_eq, not_true_eq_false, false_and, if_false, wrapperRecs, hl]
@@ -211,6 +224,7 @@ theorem libReadV1_wrapper (c : Crcs) (h1 : ∀ b, c.ieee b < M32) (dec : Int →
     congr 1
     apply List.map_congr_left
     intro x _
+    congr 1
     simp only [recOfMsg, Rec.mk.injEq, and_true]
     omega
 
